@@ -195,3 +195,30 @@ Theorem C13_intersection_and_except_count : forall a b x,
   subseq (items_of (array_intersection_t a b)) (items_of a) /\ subseq (items_of (array_except_t a b)) (items_of a).
 Proof. exact intersection_except_count. Qed.
 Print Assumptions C13_intersection_and_except_count.
+
+(* M6 (second review): the fuel the model passes is never what decides an answer, on ARBITRARY inputs -- also for the loops
+   whose exhaustion is an ordinary value (None, Ok None, Ok buf, PErr, the input itself), about which `<> Err EFuel` says
+   nothing: any fuel above the one the model passes gives the same answer (FuelIndep.v) *)
+From JB Require FuelIndep.
+Theorem C13_fuel_is_never_decisive :
+  (forall St R bs (step : St -> Codec.je -> list N -> res (St + R)) fin k idx len joff voff s, (length bs < k)%nat -> Iter.arr_fold bs step fin k idx len joff voff s = Iter.arr_fold bs step fin (S (length bs)) idx len joff voff s) /\
+  (forall St R bs (step : St -> list N -> res (St + R)) fin k idx len joff koff s, (length bs < k)%nat -> Iter.keys_fold bs step fin k idx len joff koff s = Iter.keys_fold bs step fin (S (length bs)) idx len joff koff s).
+Proof. split; [exact (@FuelIndep.arr_fold_any_fuel)|exact (@FuelIndep.keys_fold_any_fuel)]. Qed.
+Print Assumptions C13_fuel_is_never_decisive.
+
+(* L5 (second review): WHICH occurrences intersection / except keep.  quota_flags b [] a marks position i of a iff fewer
+   elements identical to a[i] stand before it in a than b has copies ("scanning a left to right, an element is kept while
+   unmatched copies remain in b"): intersection keeps exactly the marked positions, except exactly the others *)
+Theorem C13_intersection_and_except_occurrences : forall a b,
+  items_of (array_intersection_t a b) = select_flags (quota_flags (items_of b) [] (items_of a)) (items_of a) /\
+  items_of (array_except_t a b) = select_flags (map negb (quota_flags (items_of b) [] (items_of a))) (items_of a).
+Proof. exact intersection_except_occurrences. Qed.
+Print Assumptions C13_intersection_and_except_occurrences.
+(* recursively, as for distinct: the head is kept by the intersection iff b holds a copy of it, and the rest is matched
+   against b with one such copy less (m' is ANY list with the counts of m minus one copy of x) *)
+Theorem C13_intersection_and_except_recursive : forall x l m,
+  (forall m', (forall y, cnt y m = ((if item_eqb y x then 1 else 0) + cnt y m')%nat) ->
+     inter_acc (x :: l) m = x :: inter_acc l m' /\ except_acc (x :: l) m = except_acc l m') /\
+  (cnt x m = 0%nat -> inter_acc (x :: l) m = inter_acc l m /\ except_acc (x :: l) m = x :: except_acc l m).
+Proof. exact intersection_except_recursive. Qed.
+Print Assumptions C13_intersection_and_except_recursive.
